@@ -143,6 +143,8 @@ class PrinterPolicy(Policy):
                 ctx.assume(ctx.data(other).symlen == ld.symlen)
         if d.tags <= {'BoolOp'} and name == 'values':
             ctx.assume(ld.symlen >= 2)
+        if d.tags & {'Import', 'ImportFrom', 'Global', 'Nonlocal'} and name == 'names':
+            ctx.assume(ld.symlen >= 1)
         if d.tags <= {'Dict'} and name in ('keys', 'values'):
             other = d.fields.get('values' if name == 'keys' else 'keys')
             if other is not None:
